@@ -131,3 +131,103 @@ theorem add_int_exact (p q : Int) (h : (p + q).natAbs < pow2 53) :
       rw [Int.natCast_mul, this, hu]
 
 end Csvq.FVal
+
+namespace Csvq.FVal
+
+theorem unit_int_pos : (0 : Int) < (unit : Int) := by exact_mod_cast unitNat_pos
+
+theorem decide_mul_neg (p u : Int) (hu : 0 < u) : decide (p * u < 0) = decide (p < 0) := by
+  by_cases c : p < 0
+  · have := Int.mul_neg_of_neg_of_pos c hu
+    simp [c, this]
+  · have h0 : 0 ≤ p * u := Int.mul_nonneg (by omega) (Int.le_of_lt hu)
+    have : ¬ p * u < 0 := by omega
+    simp [c, this]
+
+/-- negation of an exact integer image -/
+theorem neg_int (q : Int) (hq : q ≠ 0) : neg (.fin (q * (unit : Int))) = .fin ((-q) * (unit : Int)) := by
+  have hne : q * (unit : Int) ≠ 0 := Int.mul_ne_zero hq (Int.ne_of_gt unit_int_pos)
+  simp only [neg, hne, if_false, Int.neg_mul]
+
+/-- adding -0 to a non-zero finite value changes nothing -/
+theorem add_negz_right (n : Int) (hn : n ≠ 0) (hex : roundMag n.natAbs 1 = some n.natAbs) :
+    add (.fin n) .negz = .fin n := by
+  simp only [add, num?, Int.add_zero, hn, if_false, hex]
+  have hne : n.natAbs ≠ 0 := by omega
+  rw [signed_some _ _ hne]
+  by_cases h : n < 0
+  · have e : (n.natAbs : Int) = -n := by omega
+    simp only [h, decide_true, if_true]
+    rw [e, Int.neg_neg]
+  · have e : (n.natAbs : Int) = n := by omega
+    simp only [h, decide_false, Bool.false_eq_true, if_false]
+    rw [e]
+
+theorem roundMag_int_unit (a : Nat) (ha : 0 < a) (h : a < pow2 53) : roundMag (a * unit) 1 = some (a * unit) := by
+  have hu : unit = pow2 1074 := rfl
+  rw [hu]; exact roundMag_exact a ha h 1074 (by decide)
+
+/-- float `-` of two exact integers whose difference is below 2^53 is the exact difference -/
+theorem sub_int_exact (p q : Int) (h : (p - q).natAbs < pow2 53) :
+    sub (.fin (p * (unit : Int))) (.fin (q * (unit : Int))) = .fin ((p - q) * (unit : Int)) := by
+  unfold sub
+  by_cases hq : q = 0
+  · subst hq
+    simp only [Int.zero_mul, Int.sub_zero] at h ⊢
+    have : neg (.fin 0) = .negz := by simp [neg]
+    rw [this]
+    by_cases hp : p = 0
+    · subst hp; simp [add, num?]
+    · have hne : p * (unit : Int) ≠ 0 := Int.mul_ne_zero hp (Int.ne_of_gt unit_int_pos)
+      apply add_negz_right _ hne
+      have ha : 0 < p.natAbs := Int.natAbs_pos.mpr hp
+      rw [Int.natAbs_mul, Int.natAbs_natCast]
+      exact roundMag_int_unit _ ha h
+  · rw [neg_int q hq]
+    have : p - q = p + -q := Int.sub_eq_add_neg
+    rw [this] at h ⊢
+    exact add_int_exact p (-q) h
+
+/-- float `*` of two exact integers whose product is non-zero and below 2^53 is the exact product
+    (a zero product is ±0: the sign of a float zero has no integer counterpart) -/
+theorem mul_int_exact (p q : Int) (h0 : p * q ≠ 0) (h : (p * q).natAbs < pow2 53) :
+    mul (.fin (p * (unit : Int))) (.fin (q * (unit : Int))) = .fin ((p * q) * (unit : Int)) := by
+  have hp : p ≠ 0 := fun e => h0 (by rw [e, Int.zero_mul])
+  have hq : q ≠ 0 := fun e => h0 (by rw [e, Int.mul_zero])
+  have hupos := unit_int_pos
+  have ha : 0 < (p * q).natAbs := Int.natAbs_pos.mpr h0
+  have hex := roundMag_int_unit _ ha h
+  have hupn := unitNat_pos
+  simp only [mul, isNaN, isInf, isNeg, Bool.or_false, Bool.false_eq_true, if_false, num?]
+  rw [decide_mul_neg p _ hupos, decide_mul_neg q _ hupos]
+  have hmag : (p * (unit : Int)).natAbs * (q * (unit : Int)).natAbs = ((p * q).natAbs * unit) * unit := by
+    rw [Int.natAbs_mul, Int.natAbs_mul, Int.natAbs_natCast, Int.natAbs_mul]
+    generalize unit = u
+    ac_rfl
+  rw [hmag, roundMag_scale _ _ hupn, hex]
+  have hne : (p * q).natAbs * unit ≠ 0 := Nat.ne_of_gt (Nat.mul_pos ha hupn)
+  rw [signed_some _ _ hne, Int.natCast_mul]
+  generalize (unit : Int) = u at *
+  rcases Int.lt_or_gt_of_ne hp with lp | gp <;> rcases Int.lt_or_gt_of_ne hq with lq | gq
+  · have hpos : 0 < p * q := Int.mul_pos_of_neg_of_neg lp lq
+    have e : ((p * q).natAbs : Int) = p * q := by omega
+    simp only [lp, lq, decide_true, bne_self_eq_false, Bool.false_eq_true, if_false]
+    rw [e]
+  · have hneg : p * q < 0 := Int.mul_neg_of_neg_of_pos lp gq
+    have e : ((p * q).natAbs : Int) = -(p * q) := by omega
+    have nq : ¬ (q < 0) := by omega
+    simp only [lp, nq, decide_true, decide_false, Bool.true_bne, Bool.not_false, if_true]
+    rw [e, Int.neg_mul, Int.neg_neg]
+  · have hneg : p * q < 0 := Int.mul_neg_of_pos_of_neg gp lq
+    have e : ((p * q).natAbs : Int) = -(p * q) := by omega
+    have np : ¬ (p < 0) := by omega
+    simp only [np, lq, decide_true, decide_false, Bool.false_bne, if_true]
+    rw [e, Int.neg_mul, Int.neg_neg]
+  · have hpos : 0 < p * q := Int.mul_pos gp gq
+    have e : ((p * q).natAbs : Int) = p * q := by omega
+    have np : ¬ (p < 0) := by omega
+    have nq : ¬ (q < 0) := by omega
+    simp only [np, nq, decide_false, bne_self_eq_false, Bool.false_eq_true, if_false]
+    rw [e]
+
+end Csvq.FVal
